@@ -120,6 +120,29 @@ TEMPLATE_FILES += [
 ]
 
 
+# documents with hand-written verdicts of the SOURCE schema (Draft 6 read by hand): the generated root must agree with them,
+# not merely with the directly parsed model (both pass through the same literal handling)
+EXPECTED = {
+    "literals": ({"main.json": {"title": "Lit", "type": "object",
+                                "properties": {"mode": {"const": {"retry": {"limit": 3}}},
+                                               "level": {"enum": [{"tags": [{"name": "a"}]}, "plain", [{"k": {"d": None}}]]},
+                                               "opt": {"type": "object", "title": "Opt", "default": {"limits": {"max": [{"n": 1}]}}, "properties": {"limits": {}}}}}},
+                 [({"mode": {"retry": {"limit": 3}}}, True), ({"mode": {"retry": {"limit": 4}}}, False), ({"mode": {"retry": {"limit": 3, "_x_autotitle": "retry"}}}, False),
+                  ({"level": {"tags": [{"name": "a"}]}}, True), ({"level": "plain"}, True), ({"level": [{"k": {"d": None}}]}, True), ({"level": {"tags": []}}, False),
+                  ({"opt": {}}, True), ({}, True)]),
+}
+
+
+def second_generation():
+    """the same process generates a SECOND document whose class has the name, property names and content of a class of the
+    first, but whose nested classes are named differently: nothing of the first module may be reused"""
+    def doc(inner):
+        return {"main.json": {"title": "Order", "type": "object", "required": ["item"],
+                              "properties": {"item": {"type": "object", "title": inner, "properties": {"name": {"type": "string"}}},
+                                             "more": {"type": "array", "items": {"type": "object", "title": inner + "Part", "properties": {"n": {"type": "integer"}}}}}}}
+    return [(doc("Book"), "main.json"), (doc("Toy"), "main.json"), (doc("Book"), "main.json")]
+
+
 def minimal_modules():
     """documents in which each kind of sub-schema occurs exactly ONCE, in each keyword position: every name the generated module
     mentions (Property, Element, the typed elements, Not/Nothing/AnyOf..., typing names) must be imported on account of that one
@@ -168,7 +191,7 @@ def run(tier, seed, replay=None):
         p = json.load(open(replay))
         batches = [(p["files"], p["entry"])]
     else:
-        batches = list(TEMPLATE_FILES) + minimal_modules()
+        batches = list(TEMPLATE_FILES) + second_generation() + [(files, "main.json") for files, _ in EXPECTED.values()] + minimal_modules()
         stats["minimal_modules"] = len(minimal_modules())
         titles = ["Foo", "foo", "Bar", "Item", "Thing"]
         for i in range(90 if tier == "quick" else 1500):
@@ -278,6 +301,15 @@ def run(tier, seed, replay=None):
                     res.violation(dict(payload, kind="oracle", module=text[:3000], value=v,
                                        what="the generated root class answers %r, the directly parsed model %r" % (b, a)))
                     break
+        for label, (efiles, pairs) in EXPECTED.items():
+            if files is efiles and isinstance(root, ObjectMeta):
+                for v, want in pairs:
+                    got = quiet_call(ns[root.__name__], v)[0] == "ok"
+                    stats["hand_verdicts"] = stats.get("hand_verdicts", 0) + 1
+                    if got != want:
+                        res.violation(dict(payload, kind="oracle", module=text[:3000], value=v,
+                                           what="the source schema %s %r, the generated root class %s it" % ("accepts" if want else "rejects", v, "accepts" if got else "rejects")))
+                        break
         res.sample({"entry_schema_keys": sorted(files[entry]), "classes": expected, "module_head": text[:200]}, limit=3)
     res.witness_status = {k: "fails" for k in stats["findings"]}
     res.coverage["distribution"] = stats
